@@ -41,6 +41,9 @@ def project_frame(df, axis_names, data_names):
     return cols
 
 
+ROLLUP_NAMES = ["rollup", "qc_rollup", "gross_range_test", "spike_test"]     # the last two are names of tests that ran
+
+
 def run_session(table, config, ops):
     """one PandasStore object driven through ops: ("save", opts) / ("agg",); -> one event per op"""
     import pipe_exec
@@ -81,22 +84,24 @@ def run_session(table, config, ops):
         store = PandasStore(results, axes_arg) if axes_arg else PandasStore(results)
     except Exception as ex:  # noqa: BLE001
         boot = type(ex).__name__
-    events, hist, aggd = [], [], False
+    events, hist, aggs = [], [], []
     for k, op in enumerate(ops):
         if op[0] == "agg":
-            e = {"ev": "agg", "exc": boot, "first": k == 0, "table": table, "config": config, "hist": list(hist)}
+            name = op[1] if len(op) > 1 else "rollup"
+            e = {"ev": "agg", "name": chars(name), "exc": boot, "first": k == 0, "table": table, "config": config, "hist": list(hist)}
             if not boot:
                 try:
-                    store.compute_aggregate(name="rollup")
-                    aggd = True
+                    store.compute_aggregate(name=name)
+                    if name not in aggs:
+                        aggs.append(name)
                 except Exception as ex:  # noqa: BLE001
                     e["exc"] = type(ex).__name__
-            hist.append(["agg"])
+            hist.append(["agg", name])
             events.append(e)
             continue
         opts = op[1]
         e = {"ev": "save", "table": table, "config": config, "opts": opts, "frame": [], "exc": boot, "names": names,
-             "rollup": {"asked": aggd, "found": False, "vals": []}, "first": k == 0, "hist": list(hist)}
+             "rollups": [], "first": k == 0, "hist": list(hist)}
         hist.append(["save", opts])
         if not boot:
             try:
@@ -105,11 +110,11 @@ def run_session(table, config, ops):
                 cols = project_frame(df, {"".join(ax[k2]) for k2 in ("t", "z", "y", "x")},
                                      set(table["data"]) if opts["write_data"] else set())
                 e["nrows"] = len(df)
-                rc = [c for c in cols if "".join(c["name"]).endswith("rollup")]
-                if rc:
-                    e["rollup"]["found"] = True
-                    e["rollup"]["vals"] = rc[0]["vals"]
-                e["frame"] = [c for c in cols if not "".join(c["name"]).endswith("rollup")]
+                # a roll-up has no stream id: its column is qartod_<name>, whatever the name (test columns carry a stream id)
+                rnames = {"qartod_" + a: a for a in ROLLUP_NAMES}
+                e["rollups"] = sorted(({"name": chars(rnames["".join(c["name"])]), "vals": c["vals"]} for c in cols
+                                       if "".join(c["name"]) in rnames), key=lambda x: x["name"])
+                e["frame"] = [c for c in cols if "".join(c["name"]) not in rnames]
             except Exception as ex:  # noqa: BLE001
                 e["exc"] = type(ex).__name__
                 e["msg"] = str(ex)[:150]
@@ -124,7 +129,7 @@ def run_save(table, config, opts, rollup):
 
 def replay_event(e):
     """re-run the store session up to and including the recorded event -> its events"""
-    ops = [tuple(h) for h in e.get("hist", [])] + ([("agg",)] if e["ev"] == "agg" else [("save", e["opts"])])
+    ops = [tuple(h) for h in e.get("hist", [])] + ([("agg", "".join(e["name"]))] if e["ev"] == "agg" else [("save", e["opts"])])
     if not any(op[0] == "save" for op in ops):
         ops.append(("save", {"write_data": False, "write_axes": True, "include": {"given": False, "items": []},
                              "exclude": {"given": False, "items": []},
@@ -193,7 +198,8 @@ def check(ctx):
         # options again, other options (with filters) in between
         plain = dict(opts, include={"given": False, "items": []}, exclude={"given": False, "items": []})
         other = dict(opts, write_data=not opts["write_data"], write_axes=not opts["write_axes"])
-        pool = [("save", opts), ("save", plain), ("save", other), ("agg",), ("save", opts), ("agg",), ("save", plain)]
+        an = r.choice(ROLLUP_NAMES)
+        pool = [("save", opts), ("save", plain), ("save", other), ("agg", "rollup"), ("save", opts), ("agg", an), ("save", plain)]
         ops = [("save", opts)] if r.random() < 0.3 else [r.choice(pool) for _ in range(r.randint(2, 6))]
         if not any(op[0] == "save" for op in ops):
             ops.append(("save", plain))
@@ -232,7 +238,7 @@ def check(ctx):
         e["id"] = 1
         col = [c for c in e["frame"] if "".join(c["name"]).endswith("test")][0]
         col["vals"][0] = 4 if col["vals"][0] != 4 else 1
-        e["first"], e["rollup"] = True, {"asked": False, "found": False, "vals": []}
+        e["first"], e["rollups"] = True, []
         bad, _ = tv.validate([e], "Trace_Store", "C19_self")
         if not any(cl == "c19_results" for _, cl in bad):
             raise tlc.MachineryError("binding self-test failed for Trace_Store")
